@@ -201,7 +201,8 @@ def r2_2(model: Model, rep: Report) -> None:
     IDC = f"{ID}.id_c.idc"
     ev2 = Evaluator(model, primitives=set(ID_PRIMS) | {IDENTIFY, IDC, IDENT, QUERY}, prim_methods=set(ID_PRIM_METHODS))
     cond_t = typed(ev2, "conditions", ("union", (("set", ("cls", VARIABLE)), "none")))
-    paths2 = ev2.run(f, {"graph": graph_var(ev2, "graph"), "treatments": varset(ev2, "treatments"), "outcomes": varset(ev2, "outcomes"), "conditions": cond_t})
+    from .common import split_conditional_returns
+    paths2 = split_conditional_returns(ev2.run(f, {"graph": graph_var(ev2, "graph"), "treatments": varset(ev2, "treatments"), "outcomes": varset(ev2, "outcomes"), "conditions": cond_t}))
     sa2 = SetAlg()
     problems = []
     caught = [p for p in paths2 if any(c[0] == "raised-in" for c in p.conds)]
